@@ -11,6 +11,7 @@
 --     TABLE   "|"-separated entries  he:ELEMS=DIGEST | h:HEX=DIGEST | m:HEX=DIGEST | mi:HEX:INT=DIGEST  (as_bytes, 32 bytes)
 import Winter.Drv.Util
 import Winter.Model.Coin
+import Winter.Model.CoinGen
 import Winter.Gen.F64
 import Winter.Gen.F62
 import Winter.Gen.F128
@@ -113,13 +114,18 @@ def interp (H : DrvHasher) (fd : FieldDesc) : Nat â†’ Coin (Option (List Nat)) â
       match n.toNat?, dom.toNat?, nonce.toNat? with
       | some n, some dom, some nonce =>
         let (o, c') := step H.ops c (.drawIntegers n dom nonce)
-        if isPanic o then (outStr o :: acc).reverse else interp H fd fuel c' rest (outStr o :: acc)
+        -- tie T: the same through the integer logic regenerated from the Rust source on this run
+        let (og, _) := drawIntegersG H.ops n dom nonce c
+        let os := outStr o ++ (if outStr og == outStr o then "" else s!"|gen={outStr og}")
+        if isPanic o then (os :: acc).reverse else interp H fd fuel c' rest (os :: acc)
       | _, _, _ => ["bad-op"]
     | ["lz", v] =>
       match v.toNat? with
       | some v =>
         let (o, c') := step H.ops c (.checkLeadingZeros v)
-        interp H fd fuel c' rest (outStr o :: acc)
+        let g := checkLeadingZerosG H.ops c v      -- tie T (as above)
+        let os := outStr o ++ (if outStr (.num g) == outStr o then "" else s!"|gen={g}")
+        interp H fd fuel c' rest (os :: acc)
       | none => ["bad-op"]
     | ["gr", gf] =>
       match gf.toNat? with
